@@ -1,4 +1,6 @@
 """C02 — and/or: short-circuit structure, polarity, operand order, nullary values, value storage."""
+CANON = True
+
 import ast
 
 from .. import compq, placement, pyq
@@ -21,10 +23,10 @@ def check(ctx, src):
     f = comp.rm.func(FN)
     ctx.require(f is not None, f"{FN} not found")
     # --- polarity table
-    ops = pyq.contains(f, lambda n: isinstance(n, ast.Assign) and norm(n.targets[0]) == "ops" and isinstance(n.value, ast.Dict))
+    ops = pyq.contains(f, lambda n: isinstance(n, ast.Dict) and {getattr(k, "value", None) for k in n.keys} == {"and", "or"})
     ctx.need(ops is not None, "ops table not found")
-    table = fold(ops.value)
-    ctx.check(table == {"and": ("ast.And", True), "or": ("ast.Or", None)}, "BOOL-POLARITY", f"{R}|{FN}|ops", f"ops table is {table}", R, ops.lineno,
+    table = fold(ops)
+    ctx.decide("BOOL-POLARITY", f"{R}|{FN}|ops", table == {"and": ("ast.And", True), "or": ("ast.Or", None)}, f"ops table is {table}", R, ops.lineno,
               witness="(and) / (or) / the operator node are wrong", detail=str(table))
     neg = pyq.contains(f, lambda n: isinstance(n, ast.If) and norm(n.test) in ("operator == 'or'", "operator == \"or\"") and "ast.Not()" in norm(n))
     ctx.check(neg is not None and "cond = asty.UnaryOp(node, op=ast.Not(), operand=cond)" in [norm(s) for s in neg.body], "BOOL-POLARITY", f"{R}|{FN}|negation-for-or",
